@@ -174,6 +174,11 @@ func JSON(t *simkit.Tape, o *simkit.Outcome, full bool) {
 			o.Probe("corruption-unjudged")
 		}
 	}
+	if t.Bool(1, 3) {
+		cfg2 := model.DrawJSONConfig(t)
+		other := model.SerialiseJSON(t, cfg2, model.GenJSON(t, cfg2))
+		interleavedParsers(t, o, P, "json", data, other)
+	}
 	o.NonTrivial = len(data) >= 5 && inside > 0
 	o.Fingerprint = simkit.Hash64(string(data))
 }
